@@ -272,10 +272,10 @@ theorem port_uid_fresh (n : Node) (es : List Entry) (h : Rep n es) : n.next ∉ 
   have := h.uidsLt e he
   omega
 
-/-- installing a service class whose name is not installed keeps the registries in agreement -/
-theorem rep_installSvc (n : Node) (es : List Entry) (h : Rep n es) (c : Cls) (l : List Nat) (hl : Health) (f : Int)
+/-- registering a new service object whose name is not installed keeps the registries in agreement -/
+theorem rep_registerSvc (n : Node) (es : List Entry) (h : Rep n es) (c : Cls) (l : List Nat) (hl : Health) (f : Int)
     (hf : dhas c.name n.software = false) :
-    Rep (n.installSvc c l hl f) (es ++ [⟨c.name, n.next, false⟩]) := by
+    Rep (n.registerSvc c l hl f) (es ++ [⟨c.name, n.next, false⟩]) := by
   have hfresh := name_fresh n es h c.name hf
   have hu : n.next ∉ es.map (·.uid) := by
     intro hm
@@ -313,7 +313,7 @@ theorem rep_installSvc (n : Node) (es : List Entry) (h : Rep n es) (c : Cls) (l 
     · simp only [List.mem_singleton] at he; subst he; simp
   · intro i hi
     show i.m.uid < n.next + 1
-    simp only [Node.installSvc, List.mem_append, List.mem_singleton] at hi
+    simp only [Node.registerSvc, List.mem_append, List.mem_singleton] at hi
     rcases hi with hi | rfl
     · have := h.heapSvcLt i hi; omega
     · simp
@@ -350,10 +350,10 @@ theorem rep_installSvc (n : Node) (es : List Entry) (h : Rep n es) (c : Cls) (l 
   · exact dset_snd_nodup _ _ _ h.portUidsNodup (port_uid_fresh n es h)
 
 
-/-- installing an application class whose name is not installed keeps the registries in agreement -/
-theorem rep_installApp (n : Node) (es : List Entry) (h : Rep n es) (c : Cls) (l : List Nat) (hl : Health) (f : Int)
+/-- registering a new application object whose name is not installed keeps the registries in agreement -/
+theorem rep_registerApp (n : Node) (es : List Entry) (h : Rep n es) (c : Cls) (l : List Nat) (hl : Health) (f : Int)
     (hf : dhas c.name n.software = false) :
-    Rep (n.installApp c l hl f) (es ++ [⟨c.name, n.next, true⟩]) := by
+    Rep (n.registerApp c l hl f) (es ++ [⟨c.name, n.next, true⟩]) := by
   have hfresh := name_fresh n es h c.name hf
   have hu : n.next ∉ es.map (·.uid) := by
     intro hm
@@ -394,7 +394,7 @@ theorem rep_installApp (n : Node) (es : List Entry) (h : Rep n es) (c : Cls) (l 
     have := h.heapSvcLt i hi; omega
   · intro i hi
     show i.m.uid < n.next + 1
-    simp only [Node.installApp, List.mem_append, List.mem_singleton] at hi
+    simp only [Node.registerApp, List.mem_append, List.mem_singleton] at hi
     rcases hi with hi | rfl
     · have := h.heapAppLt i hi; omega
     · simp
@@ -603,7 +603,8 @@ theorem rep_uninstall (n : Node) (es : List Entry) (h : Rep n es) (name : String
       have hiu : n.findSvc u = some i := heu ▸ hi
       refine ⟨{ n with software := ddel name n.software, services := n.services.filter (· != u),
                        svcRoutes := ddel name n.svcRoutes,
-                       portMap := delFirst (fun e => n.nameOf e.2 == some name) n.portMap },
+                       portMap := delFirst (fun e => n.nameOf e.2 == some name) n.portMap,
+                       classMap := delFirst (fun e => e.2 == name) n.classMap },
               by simp [Node.uninstall, hd, hiu, hroute], ?_⟩
       have happs : ∀ x ∈ es.filter (·.isApp), x.name ≠ name := by
         intro x hx hxn
@@ -641,7 +642,8 @@ theorem rep_uninstall (n : Node) (es : List Entry) (h : Rep n es) (name : String
       have hnu : n.findSvc u = none := heu ▸ hnone
       refine ⟨{ n with software := ddel name n.software, applications := n.applications.filter (· != u),
                        appRoutes := ddel name n.appRoutes,
-                       portMap := delFirst (fun e => n.nameOf e.2 == some name) n.portMap },
+                       portMap := delFirst (fun e => n.nameOf e.2 == some name) n.portMap,
+                       classMap := delFirst (fun e => e.2 == name) n.classMap },
               by simp [Node.uninstall, hd, hiu, hnu, hroute], ?_⟩
       have hsvcs : ∀ x ∈ es.filter (fun e => !e.isApp), x.name ≠ name := by
         intro x hx hxn
@@ -670,21 +672,75 @@ theorem rep_uninstall (n : Node) (es : List Entry) (h : Rep n es) (name : String
       · exact pm2
 
 
+/-! ### install = refuse, or evict the installed instance of that name and register the new one -/
+
+/-- after `uninstall name` the name is free -/
+theorem rep_uninstall_free (n : Node) (es : List Entry) (h : Rep n es) (name : String) :
+    ∃ n', n.uninstall name = some n' ∧ Rep n' (es.filter (fun e => e.name != name)) ∧ dhas name n'.software = false ∧
+      n'.next = n.next := by
+  obtain ⟨n', hu, hr⟩ := rep_uninstall n es h name
+  refine ⟨n', hu, hr, ?_, ?_⟩
+  · have hnot : name ∉ (es.filter (fun e => e.name != name)).map (·.name) := by
+      intro hm
+      obtain ⟨e, he, hen⟩ := List.mem_map.mp hm
+      have := (List.mem_filter.mp he).2
+      simp [hen] at this
+    have := dget_kv_none _ name hnot
+    rw [← hr.software] at this
+    simp [dhas, this]
+  · unfold Node.uninstall at hu
+    split at hu
+    · cases hu; rfl
+    · split at hu
+      · split at hu
+        · cases hu; rfl
+        · cases hu
+      · split at hu
+        · split at hu
+          · cases hu; rfl
+          · cases hu
+        · cases hu; rfl
+
+/-- Under agreement the eviction inside `install` never raises, keeps agreement and leaves the name free. -/
+theorem rep_evict (n : Node) (es : List Entry) (h : Rep n es) (name : String) :
+    ∃ n1 es1, n.evict name = some n1 ∧ Rep n1 es1 ∧ dhas name n1.software = false ∧ n1.next = n.next := by
+  unfold Node.evict
+  cases hd : dhas name n.software
+  · exact ⟨n, es, by simp, h, hd, rfl⟩
+  · obtain ⟨n', hu, hr, hfree, hnext⟩ := rep_uninstall_free n es h name
+    exact ⟨n', _, by simpa using hu, hr, hfree, hnext⟩
+
+/-- **`SoftwareManager.install` of a service keeps the registries in agreement, whatever is installed already**
+(refused, or the installed instance of that name is evicted first), and never raises. -/
+theorem rep_installSvc (n : Node) (es : List Entry) (h : Rep n es) (c : Cls) (cfg : Bool) (l : List Nat) (hl : Health) (f : Int) :
+    ∃ n' es', n.installSvc c cfg l hl f = some n' ∧ Rep n' es' := by
+  unfold Node.installSvc
+  cases hg : n.installRefused c cfg
+  · obtain ⟨n1, es1, he, hr, hfree, _⟩ := rep_evict n es h c.name
+    exact ⟨_, _, by simp [he], rep_registerSvc n1 es1 hr c l hl f hfree⟩
+  · exact ⟨n, es, by simp, h⟩
+
+theorem rep_installApp (n : Node) (es : List Entry) (h : Rep n es) (c : Cls) (cfg : Bool) (l : List Nat) (hl : Health) (f : Int) :
+    ∃ n' es', n.installApp c cfg l hl f = some n' ∧ Rep n' es' := by
+  unfold Node.installApp
+  cases hg : n.installRefused c cfg
+  · obtain ⟨n1, es1, he, hr, hfree, _⟩ := rep_evict n es h c.name
+    exact ⟨_, _, by simp [he], rep_registerApp n1 es1 hr c l hl f hfree⟩
+  · exact ⟨n, es, by simp, h⟩
+
 /-! ### every operation -/
 
-/-- The hypothesis that excludes finding F-22: the API never installs a class whose name is already installed
-(the request handler tests this itself), and the application registry maps a name to the class of that name. -/
-def Op.fresh (n : Node) : Op → Prop
-  | .installSvc c _ _ _ => dhas c.name n.software = false
-  | .installApp c _ _ _ => dhas c.name n.software = false
-  | .reqInstall name (some (c, _)) => c.name = name
-  | _ => True
-
-theorem rep_step (n : Node) (es : List Entry) (h : Rep n es) (op : Op) (hf : Op.fresh n op) :
+/-- **Every operation keeps the registries in agreement** — no hypothesis on the operation (finding F-22 repaired:
+an install of an installed name evicts the old instance first). -/
+theorem rep_step (n : Node) (es : List Entry) (h : Rep n es) (op : Op) :
     ∃ es', Rep (n.step op).1 es' := by
   cases op with
-  | installSvc c l hl f => exact ⟨_, rep_installSvc n es h c l hl f hf⟩
-  | installApp c l hl f => exact ⟨_, rep_installApp n es h c l hl f hf⟩
+  | installSvc c cfg l hl f =>
+    obtain ⟨n', es', hi, hr⟩ := rep_installSvc n es h c cfg l hl f
+    exact ⟨es', by simp only [Node.step, hi]; exact hr⟩
+  | installApp c cfg l hl f =>
+    obtain ⟨n', es', hi, hr⟩ := rep_installApp n es h c cfg l hl f
+    exact ⟨es', by simp only [Node.step, hi]; exact hr⟩
   | uninstall name =>
     obtain ⟨n', hu, hr⟩ := rep_uninstall n es h name
     exact ⟨_, by simp only [Node.step, hu]; exact hr⟩
@@ -702,18 +758,17 @@ theorem rep_step (n : Node) (es : List Entry) (h : Rep n es) (op : Op) (hf : Op.
     · exact ⟨es, h⟩
     · split
       · exact ⟨es, h⟩
-      · rename_i _ hnot
-        cases c with
+      · cases c with
         | none => exact ⟨es, h⟩
         | some cl =>
           obtain ⟨c, l⟩ := cl
-          have hcn : c.name = name := hf
-          have hfr : dhas c.name n.software = false := by rw [hcn]; simpa using hnot
-          have h1 := rep_installApp n es h c l .good 2 hfr
-          refine ⟨_, rep_of_heap_map (n.installApp c l .good 2) _ _ h1 (fun i => i.s)
-            (fun i => if i.m.uid = n.next then i.a.install else i.a) ?_ rfl rfl rfl rfl rfl rfl rfl rfl⟩
-          show (n.installApp c l .good 2).svcs = _
-          simp
+          obtain ⟨n1, es1, hi, h1⟩ := rep_installApp n es h c false l .good 2
+          simp only [hi]
+          split
+          · refine ⟨es1, rep_of_heap_map n1 _ _ h1 (fun i => i.s)
+              (fun i => if i.m.uid = n.next then i.a.install else i.a) ?_ rfl rfl rfl rfl rfl rfl rfl rfl⟩
+            simp
+          · exact ⟨es1, h1⟩
   | svcReq name r => exact ⟨es, rep_deliver n es h _ _ rfl rfl rfl rfl rfl rfl rfl rfl rfl⟩
   | appReq name r => exact ⟨es, rep_deliver n es h _ _ rfl rfl rfl rfl rfl rfl rfl rfl rfl⟩
   | svcApi u e =>
@@ -765,18 +820,14 @@ theorem rep_step (n : Node) (es : List Entry) (h : Rep n es) (op : Op) (hf : Op.
       · exact ⟨es, rep_same_heap n es h _ rfl rfl rfl rfl rfl rfl rfl rfl rfl⟩
   | deliver p pr sc => exact ⟨es, h⟩
   | frame hd sc => simp only [Node.step]; split <;> exact ⟨es, h⟩
+  | send u => simp only [Node.step]; split <;> exact ⟨es, h⟩
 
-/-- freshness along a whole run -/
-def FreshRun : Node → List Op → Prop
-  | _, [] => True
-  | n, op :: ops => Op.fresh n op ∧ FreshRun (n.step op).1 ops
-
-theorem rep_run (ops : List Op) (n : Node) (es : List Entry) (h : Rep n es) (hf : FreshRun n ops) :
+theorem rep_run (ops : List Op) (n : Node) (es : List Entry) (h : Rep n es) :
     ∃ es', Rep (n.run ops) es' := by
   induction ops generalizing n es with
   | nil => exact ⟨es, h⟩
   | cons op ops ih =>
-    obtain ⟨es1, h1⟩ := rep_step n es h op hf.1
-    exact ih _ es1 h1 hf.2
+    obtain ⟨es1, h1⟩ := rep_step n es h op
+    exact ih _ es1 h1
 
 end Primaite.C13
